@@ -257,7 +257,7 @@ func TestC15(t *testing.T) {
 	for _, c := range combos {
 		scs = append(scs, c15scenario(c))
 	}
-	stall := 10 * time.Minute
+	stall := 4 * time.Minute
 	if lib.Thorough() {
 		stall = 60 * time.Minute
 	}
@@ -291,7 +291,7 @@ func TestC15(t *testing.T) {
 		owg.Add(1)
 		go func(procs int) {
 			defer owg.Done()
-			cmd := exec.Command(bin, "-test.run", "^TestC15Race$", "-test.count", "1")
+			cmd := exec.Command(bin, "-test.run", "^TestC15Race$", "-test.count", "1", "-test.timeout", "4m")
 			cmd.Env = append(os.Environ(), fmt.Sprintf("GOMAXPROCS=%d", procs), "GORACE=halt_on_error=0", "VERIF_RACE_RUN=1")
 			out, _ := cmd.CombinedOutput()
 			omu.Lock()
